@@ -5,6 +5,7 @@ Formats with a Lean container model: FLAC (and the Ogg page layer, Props/C15.lea
 import MutagenModel.Proofs.Container.Flac
 import MutagenModel.Proofs.Container.ApeFile
 import MutagenModel.Proofs.Container.Id3File
+import MutagenModel.Proofs.Container.Iff
 set_option linter.unusedVariables false
 namespace Mutagen.C03
 open Mutagen Mutagen.FlacC
@@ -71,5 +72,65 @@ theorem ape_save_wellformed (audio : Bytes) (old new : List Ape.Item)
   refine ⟨_, ApeF.save_over_tag audio old _ hs ha, List.take_left' rfl, ?_⟩
   rw [List.drop_left' rfl]
   exact Ape.decodeTag_encodeTag new hnew
+
+/-! ## IFF-style chunk files (AIFF, WAVE, DSDIFF) -/
+
+/-- after an IFF save the size fields are those of the extents: the root's size field equals the number
+of bytes that follow it (all of the file), the ID3 chunk's size field — at its place behind the
+chunks in front of it — equals the length of its data, `10 + len(frames) + padding`, the pad byte is
+there iff that length is odd, and the strict reader (complete headers, every size inside the file,
+pad bytes iff odd, nothing left over) reads the file back as the form type and the expected chunks -/
+theorem iff_save_sizes_consistent (d : Iff.Dialect) (hd : d.WF) (L : Iff.Layout) (h : L.OK d) (vmaj : Nat)
+    (hvm : vmaj = 3 ∨ vmaj = 4) (frames : Bytes) (pad : PadChoice) (p : Nat)
+    (hp : getPadding pad ((L.oldLen : Int) - (frames.length + 10 : Nat)) (L.trailing d) = p)
+    (hfit : frames.length + p < 2 ^ 28) (hroot : 4 + L.newExtent d (10 + frames.length + p) < 256 ^ d.sizeW) :
+    ∃ tag out, Iff.save d (L.render d) vmaj frames pad = .ok out ∧
+      out.take 4 = d.rootId ∧
+      Iff.dec d ((out.drop 4).take d.sizeW) = out.length - Iff.hs d ∧
+      Iff.dec d (readAt out (Iff.hs d + 4 + (Iff.renderChunks d L.before).length + 4) d.sizeW) = 10 + frames.length + p ∧
+      tag.data.length = 10 + frames.length + p ∧ tag.pad.length = (10 + frames.length + p) % 2 ∧
+      Iff.readFile d out = some (L.formType, L.before ++ tag :: L.after) := by
+  obtain ⟨hdr, h1, h2, h3⟩ := Iff.save_layout d hd L h vmaj hvm frames pad p hp hfit hroot
+  have hl : (hdr ++ frames ++ zeros p).length = 10 + frames.length + p := by simp [h2]; omega
+  have hok := Iff.withTag_ok d hd L h (hdr ++ frames ++ zeros p) (by rw [hl]; exact hroot)
+  have hch : (L.withTag d (hdr ++ frames ++ zeros p)).chunks = L.before ++ Iff.tagChunk (L.id3Id d) (hdr ++ frames ++ zeros p) :: L.after := by
+    simp [Iff.Layout.withTag, Iff.Layout.chunks]
+  have hrd := Iff.readFile_layout d hd _ hok
+  have hrt := Iff.readFile_some_root d _ _ hrd
+  have htag := hok.id3 _ rfl
+  have hN : 10 + frames.length + p < 256 ^ d.sizeW := by unfold Iff.Layout.newExtent at hroot; omega
+  refine ⟨Iff.tagChunk (L.id3Id d) (hdr ++ frames ++ zeros p), _, h3, hrt.1, hrt.2, ?_, hl, by simp only [Iff.tagChunk, hl, length_zeros], ?_⟩
+  · have := Iff.sizeField_render d hd L.formType h.name.1 L.before L.after (Iff.tagChunk (L.id3Id d) (hdr ++ frames ++ zeros p)) htag.1.1.1
+    have hft : (L.withTag d (hdr ++ frames ++ zeros p)).formType = L.formType := rfl
+    simp only [Iff.Layout.render, hch, hft]
+    rw [this]
+    simp only [Iff.tagChunk, hl]
+    exact Iff.dec_enc d _ hN
+  · rw [hch] at hrd; exact hrd
+
+/-- after an IFF delete the root's size field equals the number of bytes that follow it, and the strict
+reader reads the file back as the form type and the other chunks -/
+theorem iff_delete_sizes_consistent (d : Iff.Dialect) (hd : d.WF) (L : Iff.Layout) (h : L.OK d) :
+    ∃ out, Iff.delete d (L.render d) = .ok out ∧ out.take 4 = d.rootId ∧
+      Iff.dec d ((out.drop 4).take d.sizeW) = out.length - Iff.hs d ∧
+      Iff.readFile d out = some (L.formType, L.before ++ L.after) := by
+  have h2 := Iff.readFile_without d hd L h
+  have hrt := Iff.readFile_some_root d _ _ h2
+  exact ⟨_, Iff.delete_layout d hd L h, hrt.1, hrt.2, h2⟩
+
+/-- a well-formed file stays well-formed through a save (`withTag` is what `iff_save_sizes_consistent`
+says the file becomes), so the statements apply again to the result: by induction, through any history
+of saves (and of deletes, `C08.iff_delete_then_wellformed`) whose sizes fit the size fields -/
+theorem iff_save_keeps_wellformed (d : Iff.Dialect) (hd : d.WF) (L : Iff.Layout) (h : L.OK d) (data : Bytes)
+    (hroot : 4 + L.newExtent d data.length < 256 ^ d.sizeW) : (L.withTag d data).OK d :=
+  Iff.withTag_ok d hd L h data hroot
+
+/-- the strict reader is strict: a RIFF/WAVE file whose root size field is one too small is rejected, the
+corrected file is accepted -/
+example : Iff.readFile Iff.wave ([0x52, 0x49, 0x46, 0x46, 13, 0, 0, 0, 0x57, 0x41, 0x56, 0x45] ++
+      [0x64, 0x61, 0x74, 0x61, 1, 0, 0, 0, 7, 0]) = none ∧
+    Iff.readFile Iff.wave ([0x52, 0x49, 0x46, 0x46, 14, 0, 0, 0, 0x57, 0x41, 0x56, 0x45] ++
+      [0x64, 0x61, 0x74, 0x61, 1, 0, 0, 0, 7, 0]) = some ([0x57, 0x41, 0x56, 0x45], [⟨[0x64, 0x61, 0x74, 0x61], [7], [0]⟩]) := by
+  decide +kernel
 
 end Mutagen.C03
